@@ -70,6 +70,9 @@ pub enum FieldKind {
     StreamBody,
     XrefStreamBody,
     ObjStmBody,
+    /// the digits of an integer object that serves as some stream's Length (plain object, or a
+    /// member of an unfiltered object stream)
+    LengthObject,
     Eof,
 }
 
@@ -83,6 +86,8 @@ pub struct Layout {
     /// integer objects that hold the Length of an object-stream container (they are ordinary
     /// objects of the document, but replacing one by something else makes the file invalid)
     pub container_length_objs: BTreeSet<u32>,
+    /// how many containers took their Length from an object another stream uses too
+    pub container_length_shared: u32,
 }
 
 #[derive(Clone, Debug)]
@@ -815,18 +820,28 @@ impl<'a> Em<'a> {
     }
 
     /// the decoded content of an object stream: index block, padding, members
-    fn objstm_content(&self, members: &[(u32, MObj)]) -> (Vec<u8>, usize) {
+    fn objstm_content(&self, members: &[(u32, MObj)], lengths: &BTreeSet<u32>) -> (Vec<u8>, usize, Vec<usize>) {
         let seps: [&[u8]; 6] = [b" ", b"\n", b"\r", b"  ", b"\r\n", b" \n "];
         let sep = |v: &mut Vec<u8>| v.extend_from_slice(seps[self.d(6, "objstm-sep")]);
         let (mut objs, mut index) = (Vec::new(), Vec::new());
+        let mut offsets = Vec::new();
         for (num, o) in members {
             let mut e = self.sub();
-            e.obj(o);
+            match o {
+                // an integer that is some stream's Length: now and then zero-padded to seven digits (legal;
+                // it leaves room for a same-size corruption of the value)
+                MObj::Int(v) if *v >= 0 && lengths.contains(num) && self.f >= 1 && self.d(3, "length-zero-padded") == 2 => {
+                    self.ctx.count("length-object-zero-padded");
+                    e.tok(format!("{:07}", v).as_bytes());
+                }
+                _ => e.obj(o),
+            }
             // the offset designates the first byte of the object itself
             let start = e.first_tok.unwrap();
             index.extend_from_slice(num.to_string().as_bytes());
             sep(&mut index);
             index.extend_from_slice(objs.len().to_string().as_bytes());
+            offsets.push(objs.len());
             sep(&mut index);
             objs.extend_from_slice(&e.out[start..]);
             sep(&mut objs); // at least one white-space byte after every member
@@ -839,7 +854,7 @@ impl<'a> Em<'a> {
         }
         let first = index.len();
         index.extend_from_slice(&objs);
-        (index, first)
+        (index, first, offsets)
     }
 }
 
@@ -960,6 +975,7 @@ pub fn write_history_on(ctx: &Ctx, seed: Option<&Seed>, revisions: &[Revision], 
         let mut length_objs: BTreeMap<usize, u32> = BTreeMap::new();
         // those of them written as plain objects (a container's own Length cannot live in a container)
         let mut plain_length_objs: BTreeMap<usize, u32> = BTreeMap::new();
+        let mut compressed_length_objs: BTreeSet<u32> = BTreeSet::new();
         for (id, o) in &rev.objects {
             let mut o = o.clone();
             max_num = max_num.max(id.0);
@@ -981,6 +997,7 @@ pub fn write_history_on(ctx: &Ctx, seed: Option<&Seed>, revisions: &[Revision], 
                     exp.insert((n, 0), lo.clone());
                     if in_objstm {
                         ctx.count("length-indirect-in-objstm");
+                        compressed_length_objs.insert(n);
                         members.push((n, lo));
                     } else {
                         len_pairs.push((id.0, n));
@@ -1071,7 +1088,7 @@ pub fn write_history_on(ctx: &Ctx, seed: Option<&Seed>, revisions: &[Revision], 
                     ents.insert(id.0, Ent::Used((at - base) as u64, id.1));
                 }
                 Item::Container(cid, group) => {
-                    let (mut content, first) = e.objstm_content(group);
+                    let (mut content, first, member_offsets) = e.objstm_content(group, &compressed_length_objs);
                     let mut d: MDict = vec![
                         (b"Type".to_vec(), MObj::Name(b"ObjStm".to_vec())),
                         (b"N".to_vec(), int(group.len() as u64)),
@@ -1087,7 +1104,7 @@ pub fn write_history_on(ctx: &Ctx, seed: Option<&Seed>, revisions: &[Revision], 
                     // other streams of the revision (an unfiltered container is padded with white-space
                     // up to the shared value). The integer object is a plain object written after the body.
                     let mut length = int(body.len() as u64);
-                    if avoid & AVOID_INDIRECT_LENGTH == 0 && e.p([0, 150, 400], "objstm-length-indirect") {
+                    if avoid & AVOID_INDIRECT_LENGTH == 0 && e.p([0, 250, 600], "objstm-length-indirect") {
                         ctx.count("objstm-length-indirect");
                         let raw = dict_get(&d, b"Filter").is_none();
                         let candidate = if raw {
@@ -1098,11 +1115,19 @@ pub fn write_history_on(ctx: &Ctx, seed: Option<&Seed>, revisions: &[Revision], 
                         match candidate {
                             Some((l, n)) if e.d(3, "objstm-length-shared") != 0 => {
                                 ctx.count("objstm-length-object-shared");
+                                layout.container_length_shared += 1;
                                 body.resize(l, b' ');
                                 layout.container_length_objs.insert(n);
                                 length = MObj::Ref(n, 0);
                             }
                             _ => {
+                                // an unfiltered container that opens a new Length object is now and then padded
+                                // generously, so that later containers of the revision can share the object
+                                if raw && e.d(4, "objstm-length-rounded-up") != 0 {
+                                    ctx.count("objstm-length-rounded-up");
+                                    let l = (body.len() / 512 + 1) * 512;
+                                    body.resize(l, b' ');
+                                }
                                 let n = next_id;
                                 next_id += 1;
                                 max_num = max_num.max(n);
@@ -1132,6 +1157,22 @@ pub fn write_history_on(ctx: &Ctx, seed: Option<&Seed>, revisions: &[Revision], 
                     emitted_containers.push(*cid);
                     let at = e.stream_obj((header_cid, 0), &d, &body, &marks, ObjStmBody);
                     ents.insert(*cid, Ent::Used((at - base) as u64, 0));
+                    // an unfiltered container: the digits of members that are some stream's Length are
+                    // stored in the clear (a fault there reaches the loader's second pass over the streams)
+                    if dict_get(&d, b"Filter").is_none() {
+                        if let Some(&(bs, _, _)) = e.fields.iter().rev().find(|f| f.2 == ObjStmBody) {
+                            for (k, (n, o)) in group.iter().enumerate() {
+                                if let (true, MObj::Int(v)) = (compressed_length_objs.contains(n), o) {
+                                    let a = bs + first + member_offsets[k];
+                                    // (weighted: one such integer among hundreds of structural fields)
+                                    let end = (a..e.out.len()).find(|&i| !e.out[i].is_ascii_digit() && e.out[i] != b'+').unwrap_or(a + 1);
+                                    for _ in 0..8 {
+                                        e.fields.push((a, end, LengthObject));
+                                    }
+                                }
+                            }
+                        }
+                    }
                     for (idx, (n, _)) in group.iter().enumerate() {
                         if opts.misdesignate && e.d(3, "misdesignate") == 1 {
                             ctx.count("misdesignated-compressed-object");
